@@ -33,4 +33,10 @@ CHECKS = {
   "text": "regular keys odd, dummies even, parent dummy before child dummy, bucket contiguity and split refinement are theorems about the translated regular_hash/dummy_hash/bucket_no/parent_bucket for all 64-bit hashes and all table sizes 2^0..2^63, with the UB obligations discharged (after the fix: commit). The differential tie calls the real functions (bucket_no through a real SplitListSet object).",
   "note": "Translator trusted and cross-checked; bucket-count logarithm is a parameter (it is an atomic member); rcu/nogc textual copies covered by the fix commit and by reading, not by the translator.",
  },
+ "C28": {
+  "category": "proof",
+  "technique": "Lean 4 theorems about the translated metrics::make and the splitter models (layout exactness, path injectivity, expand-offset agreement); exhaustive differential run over all configurations of the quantifier",
+  "text": "Layout exactness is proved for all head/array widths and hash sizes 1,2,4,8 about the Lean definition regenerated from feldman_hashset_base.h; equal hashes follow equal paths, distinct hashes diverge before the bits run out (injectivity of the cut sequence, from the cut specification theorem), the slot expand_slot derives from bit_offset() equals the traverse slot. All 4420 configurations are also run on the real code, and families of prefix-sharing hashes are inserted into a real FeldmanHashSet.",
+  "note": "split_bitstring/byte_splitter are hand models tied by differential runs; head width 64 is undefined (known finding with proved witness); widths above 32 with byte-array hashes are outside split_bitstring's unsigned result (proved witness).",
+ },
 }
